@@ -4,8 +4,8 @@
 w=$1; cd $w || exit 2
 git apply --check -R seeded.patch 2>/dev/null || git apply seeded.patch
 t=$(cargo test --workspace --no-fail-fast --offline 2>&1 | grep -E "^test result" | awk '{p+=$4; f+=$6} END {print p" passed "f" failed"}')
-sh ./demo.sh >/dev/null 2>&1; with=$?
+bash ./demo.sh >/dev/null 2>&1; with=$?
 git apply -R seeded.patch
-sh ./demo.sh >/dev/null 2>&1; without=$?
+bash ./demo.sh >/dev/null 2>&1; without=$?
 git apply seeded.patch
 echo "$w: tests with change: $t; demo exit with change: $with; without: $without"
